@@ -722,15 +722,22 @@ def life_check(run, cfgs):
         insts += r.cases
     cases = [life_case(run, i, c) for i, c in enumerate(insts)]
     res = core.run_driver(driver, "authz", cases, per_case_timeout=120)
-    nbad = 0
+    cand = []
     for c, dc in zip(insts, cases):
         o = res[dc["id"]]
         run.count(life_text(c))
         bad = life_judge(c, o) if not o.get("crash") else ["process died: " + o.get("stderr", "")[-300:]]
-        if bad and nbad < 25:
-            nbad += 1
-            rc = confirm_case(driver, "authz", dc, o, ("obs",))
-            run.report({"history": life_text(c)}, dict(dc, inst=c), "life", "%s: %s" % (life_text(c), "; ".join(bad)), (lambda rc=rc: rc is not None))
+        if bad:
+            cand.append((c, dc, o, bad))
+    # discrepancies that involve the wall-clock sentinel are confirmed last: they may be load artefacts and must not use up the budget
+    cand.sort(key=lambda x: any("timeout" in b for b in x[3]))
+    nconf = 0
+    for c, dc, o, bad in cand[:80]:
+        if nconf >= 20:
+            break
+        rc = confirm_case(driver, "authz", dc, o, ("obs",))
+        nconf += rc is not None
+        run.report({"history": life_text(c)}, dict(dc, inst=c), "life", "%s: %s" % (life_text(c), "; ".join(bad)), (lambda rc=rc: rc is not None))
     run.traces += len(cases)
     for k in (len(insts) // 3, 2 * len(insts) // 3):
         run.sample({"history": life_text(insts[k]), "expected": [h["exp"] for h in insts[k]["hist"] if h["op"] in ("authorize", "query", "save")]})
